@@ -318,8 +318,46 @@ static void dump_prog (const char *tag, program_t * p)
   }
   /* line information: one block <size><offset><file info><line info> */
   if (p->file_info)
-    vh_out ("D %s li %d %d %016llx", tag, p->file_info[0], p->file_info[1],
-            (unsigned long long) fnv ((unsigned char *) p->file_info, p->file_info[0]));
+    {
+      int end = p->file_info[1];
+      vh_out ("D %s li %d %d %016llx", tag, p->file_info[0], p->file_info[1],
+              (unsigned long long) fnv ((unsigned char *) p->file_info, p->file_info[0]));
+      /* decoded file info: <lines>:<file name> runs; line info separately */
+      o = 0;
+      buf[0] = 0;
+      for (int i = 2; i + 1 < end && o + 300 < sizeof buf; i += 2)
+        {
+          int id = p->file_info[i + 1];
+          o += snprintf (buf + o, sizeof buf - o, "%s%d:%s", i > 2 ? "," : "", p->file_info[i],
+                         (id > 0 && id <= p->num_strings) ? p->strings[id - 1] : "?");
+        }
+      vh_out ("D %s fi %s", tag, o ? buf : "-");
+      if (p->line_info)
+        vh_out ("D %s ln %d %016llx", tag, (int) (p->file_info[0] - end * 2),
+                (unsigned long long) fnv (p->line_info, p->file_info[0] - end * 2));
+      /* what the error reporter would say for the first instruction of every function */
+      {
+        /* in name order: the table order depends on addresses */
+        int *ord = (int *) calloc (n + 1, sizeof (int));
+        for (int i = 0; i < n; i++)
+          ord[i] = i;
+        for (int i = 1; i < n; i++)
+          for (int j = i; j > 0 && strcmp (p->function_table[ord[j - 1]].name, p->function_table[ord[j]].name) > 0; j--)
+            {
+              int t = ord[j];
+              ord[j] = ord[j - 1];
+              ord[j - 1] = t;
+            }
+        for (int k = 0; k < n; k++)
+          {
+            int i = ord[k];
+            if (p->function_table[i].address < p->program_size)
+              vh_out ("D %s lf %s %s", tag, p->function_table[i].name,
+                      get_line_number (p->program + p->function_table[i].address, p));
+          }
+        free (ord);
+      }
+    }
   else
     vh_out ("D %s li none", tag);
   /* code: string switch tables dumped entry by entry, then masked out of the hash */
@@ -530,6 +568,41 @@ static int sys_cmd (char *line)
       remove_destructed_objects ();
       init_binaries ();
       vh_out ("restarted %llu", (unsigned long long) config_id);
+      return 1;
+    }
+  if (!strcmp (tok[0], "corrupt") && n >= 4)
+    {
+      /* corrupt <prog.c> trunc <permille> | flip <permille> <xor byte>: damage the saved binary, keep its mtime
+         (exploration of robustness: not part of the modelled histories) */
+      char path[512];
+      struct stat st;
+      bin_path (path, sizeof path, tok[1]);
+      if (stat (path, &st) == 0 && st.st_size > 0)
+        {
+          long size = (long) st.st_size, at = size * atol (tok[3]) / 1000;
+          unsigned char *data = (unsigned char *) malloc (size);
+          FILE *f = fopen (path, "rb");
+          if (f && fread (data, 1, size, f) == (size_t) size)
+            {
+              fclose (f);
+              if (at >= size)
+                at = size - 1;
+              if (!strcmp (tok[2], "trunc"))
+                size = at;
+              else if (n >= 5)
+                data[at] ^= (unsigned char) (atoi (tok[4]) ? atoi (tok[4]) : 1);
+              f = fopen (path, "wb");
+              fwrite (data, 1, size, f);
+              fclose (f);
+              set_mtime (path, (long) st.st_mtime);
+              vh_out ("corrupted %s %s at=%ld of=%ld", tok[1], tok[2], at, (long) st.st_size);
+            }
+          else if (f)
+            fclose (f);
+          free (data);
+        }
+      else
+        vh_out ("corrupt-nofile %s", tok[1]);
       return 1;
     }
   if (!strcmp (tok[0], "calls"))
